@@ -244,3 +244,141 @@ impl WorkerRig {
         (ok, err, dropped)
     }
 }
+
+// ---------------------------------------------------------------------------------------------
+// C19, producer side: a REAL `MetadataWorker::work()` on a real control connection (to a mock
+// node the harness scripts); the rig plays the requester (`Cluster::refresh_metadata`) and the
+// cluster worker (takes the merge channel's slot and answers the reply channels it holds).
+// ---------------------------------------------------------------------------------------------
+
+/// What `ProducerRig::take` found in the slot.
+#[derive(Debug, PartialEq, Eq)]
+pub struct TakenUpdate {
+    /// "full" | "partial" | "none" (no metadata changes, e.g. hints only)
+    pub kind: &'static str,
+    /// Host ids (low 64 bits) of the peers the update carries, sorted.
+    pub peers: Vec<u64>,
+    /// Number of refresh reply channels the update held (all answered `Ok(())` by `take`).
+    pub replies: usize,
+}
+
+pub struct ProducerRig {
+    refresh: tokio::sync::mpsc::Sender<RefreshRequest>,
+    updates: merge_channel::Receiver<MetadataUpdate>,
+    receivers: Vec<(u64, oneshot::Receiver<Result<(), MetadataError>>)>,
+    next_refresh: u64,
+    _worker: RemoteHandle<()>,
+}
+
+impl ProducerRig {
+    /// As `Cluster::new` does: `ControlConnectionEstablisher::new`, `MetadataWorker::new`,
+    /// `establish(true)` (the initial fetch), then `MetadataWorker::work(cc)` spawned on the current
+    /// runtime. No schema fetch; `request_timeout` is the client-side metadata request timeout.
+    pub async fn spawn(
+        contact_point: SocketAddr,
+        refresh_interval: Duration,
+        request_timeout: Duration,
+    ) -> Result<ProducerRig, String> {
+        let (refresh_sender, refresh_receiver) = tokio::sync::mpsc::channel(32);
+        let host_filter: Option<Arc<dyn HostFilter>> = None;
+        let cc_establisher = ControlConnectionEstablisher::new(
+            vec![KnownNode::Address(contact_point)],
+            None,
+            crate::network::connection_verif::connection_config(),
+            MetadataRequestTimeouts {
+                serverside_override: None,
+                clientside_override: Some(request_timeout),
+            },
+            Vec::new(),
+            SchemaMetadataFetchMode::Disabled,
+            &host_filter,
+            None,
+        )
+        .await
+        .map_err(|e| e.to_string())?;
+        let (metadata_updates_sender, metadata_updates_receiver) = merge_channel();
+        let mut metadata_worker = MetadataWorker::new(
+            cc_establisher,
+            refresh_interval,
+            refresh_receiver,
+            metadata_updates_sender,
+        );
+        let (cc, _metadata) = metadata_worker
+            .establish(true)
+            .await
+            .map_err(|e| e.to_string())?;
+        let (fut, handle) = metadata_worker.work(cc).remote_handle();
+        tokio::spawn(fut);
+        Ok(ProducerRig {
+            refresh: refresh_sender,
+            updates: metadata_updates_receiver,
+            receivers: Vec::new(),
+            next_refresh: 0,
+            _worker: handle,
+        })
+    }
+
+    /// `Cluster::refresh_metadata` up to the send: a fresh reply channel goes into `refresh_channel`.
+    /// `Err` = the channel is closed (metadata worker gone) or full.
+    pub fn request(&mut self) -> Result<u64, ()> {
+        let (tx, rx) = oneshot::channel();
+        self.refresh
+            .try_send(RefreshRequest { response_chan: tx })
+            .map_err(|_| ())?;
+        let id = self.next_refresh;
+        self.next_refresh += 1;
+        self.receivers.push((id, rx));
+        Ok(id)
+    }
+
+    /// The cluster worker's `recv()` polled once + the answering loop of `apply_metadata_update`:
+    /// takes the slot's update, if any, and answers every reply channel it holds with `Ok(())`.
+    pub fn take(&mut self) -> Option<TakenUpdate> {
+        let update = self.updates.recv().now_or_never()??;
+        let mut taken = TakenUpdate {
+            kind: "none",
+            peers: Vec::new(),
+            replies: 0,
+        };
+        let ids = |peers: &[crate::cluster::metadata::Peer]| {
+            let mut v: Vec<u64> = peers.iter().map(|p| p.host_id.as_u128() as u64).collect();
+            v.sort_unstable();
+            v
+        };
+        match update.metadata_changes {
+            None => {}
+            Some(MetadataChanges::Full {
+                metadata,
+                refresh_responses,
+            }) => {
+                taken.kind = "full";
+                taken.peers = ids(&metadata.peers);
+                for ch in refresh_responses {
+                    taken.replies += 1;
+                    let _ = ch.send(Ok(()));
+                }
+            }
+            Some(MetadataChanges::Partial(p)) => {
+                taken.kind = "partial";
+                taken.peers = p.peers.as_deref().map(ids).unwrap_or_default();
+            }
+        }
+        Some(taken)
+    }
+
+    /// Refresh requests resolved since the last call: (answered Ok, answered Err, dropped).
+    pub fn poll_refresh(&mut self) -> (Vec<u64>, Vec<u64>, Vec<u64>) {
+        let (mut ok, mut err, mut dropped) = (Vec::new(), Vec::new(), Vec::new());
+        let mut remaining = Vec::new();
+        for (id, mut rx) in std::mem::take(&mut self.receivers) {
+            match rx.try_recv() {
+                Ok(Ok(())) => ok.push(id),
+                Ok(Err(_)) => err.push(id),
+                Err(oneshot::error::TryRecvError::Closed) => dropped.push(id),
+                Err(oneshot::error::TryRecvError::Empty) => remaining.push((id, rx)),
+            }
+        }
+        self.receivers = remaining;
+        (ok, err, dropped)
+    }
+}
